@@ -53,6 +53,10 @@ pub fn on_server_message(sim: &mut Sim, c: usize, ch: usize, bytes: &[u8], id: u
                 return;
             }
         };
+        if sim.verbose {
+            let ch: Vec<String> = msg.changes.iter().map(|(e, c)| format!("{e:#x}:{:?}", c.iter().map(|r| (r.kind, &r.val)).collect::<Vec<_>>())).collect();
+            sim.log(format!("    server -> client {c}: update tick {} mappings {:x?} despawns {:x?} removals {:x?} changes {ch:?}", msg.tick, msg.mappings, msg.despawns, msg.removals));
+        }
         if !ticked || msg.tick != t {
             sim.violate("C03", "update_outside_tick", format!("update message with tick {} sent in a frame with tick {t} (ticked={ticked})", msg.tick));
         }
@@ -149,6 +153,10 @@ pub fn on_server_message(sim: &mut Sim, c: usize, ch: usize, bytes: &[u8], id: u
                 return;
             }
         };
+        if sim.verbose {
+            let ch: Vec<String> = msg.entities.iter().map(|(e, c)| format!("{e:#x}:{:?}", c.iter().map(|r| (r.kind, &r.val)).collect::<Vec<_>>())).collect();
+            sim.log(format!("    server -> client {c}: mutate tick {} (update tick {}, index {}) {ch:?}", msg.tick, msg.update_tick, msg.index));
+        }
         if !ticked || msg.tick != t {
             sim.violate("C02", "mutate_outside_tick", format!("mutate message with tick {} sent in a frame with tick {t}", msg.tick));
         }
@@ -173,7 +181,13 @@ pub fn on_server_message(sim: &mut Sim, c: usize, ch: usize, bytes: &[u8], id: u
         for (e, comps) in &msg.entities {
             for r in comps {
                 if r.kind.is_entity() {
-                    sess.ent_taint.insert((*e, r.kind), msg.tick);
+                    if sess.ent_taint.get(&(*e, r.kind)) == Some(&u32::MAX) {
+                        // The target changed its client identity (F17) and the reference is re-sent on the
+                        // unreliable channel: that repairs it only if this very message gets written.
+                        sess.heal_pending.entry(id).or_default().push((*e, r.kind));
+                    } else {
+                        sess.ent_taint.insert((*e, r.kind), msg.tick);
+                    }
                 }
             }
         }
@@ -664,6 +678,17 @@ pub fn after_client_frame(sim: &mut Sim, c: usize) {
             if m.delivered && !m.applied && (m.update_tick <= u) && (applied_any || m.update_tick == 0) {
                 m.applied = true;
                 newly_applied.push(m.msg_id);
+            }
+        }
+        for id in &newly_applied {
+            if let Some(list) = sess.heal_pending.remove(id) {
+                let tick = sess.muts[id].tick;
+                for (e, k) in list {
+                    // Written for this entity iff the entity's confirmed tick is now this message's tick.
+                    if held.get(&e).map(|h| h.3) == Some(tick) && sess.ent_taint.get(&(e, k)) == Some(&u32::MAX) {
+                        sess.ent_taint.insert((e, k), tick);
+                    }
+                }
             }
         }
         let buffered = sess.muts.values().filter(|m| m.delivered && !m.applied).count();
